@@ -45,6 +45,43 @@ def gccFilter (fname : Str) : Bool → List Str → List Str
     let keep' := (gccMarkerKeep fname line).getD keep
     if keep' then line :: gccFilter fname keep' rest else gccFilter fname keep' rest
 
+/-- `fname.replace("\\", "\\\\")`: gcc writes a backslash of a file name as two in its line markers -/
+def escBackslash : Str → Str
+  | [] => []
+  | c :: cs => if c = 92 then 92 :: 92 :: escBackslash cs else c :: escBackslash cs
+
+/-- the whole of `_gcc_filter(fname, fp)` -/
+def gccFilterTop (fname : Str) (lines : List Str) : List Str := gccFilter (escBackslash fname) true lines
+
+/-- escaping never identifies two different file names -/
+theorem escBackslash_injective : ∀ (a b : Str), escBackslash a = escBackslash b → a = b := by
+  intro a
+  induction a with
+  | nil =>
+    intro b h
+    cases b with
+    | nil => rfl
+    | cons d ds =>
+      simp only [escBackslash] at h
+      split at h <;> simp at h
+  | cons c cs ih =>
+    intro b h
+    cases b with
+    | nil =>
+      simp only [escBackslash] at h
+      split at h <;> simp at h
+    | cons d ds =>
+      simp only [escBackslash] at h
+      by_cases hc : c = 92 <;> by_cases hd : d = 92
+      · simp only [hc, hd, ↓reduceIte, List.cons.injEq, true_and] at h
+        rw [hc, hd, ih ds h]
+      · simp only [hc, hd, ↓reduceIte, List.cons.injEq] at h
+        exact absurd h.1.symm (by simpa using hd)
+      · simp only [hc, hd, ↓reduceIte, List.cons.injEq] at h
+        exact (h.1).elim
+      · simp only [hc, hd, ↓reduceIte, List.cons.injEq] at h
+        rw [h.1, ih ds h.2]
+
 /-- `#line N "file"\n`: the text from the first quote on must be `"fname"\n` -/
 def pcppMarkerKeep (fname : Str) (line : Str) : Option Bool :=
   if isPrefix [35, 108, 105, 110, 101] line then
